@@ -205,10 +205,10 @@ func bindOpsFull() []Action {
 func scBind(ps ParamSet, ops []Action, tmpls []Template, respKinds []string, depth, blocks, msgs int) *Scenario {
 	return &Scenario{
 		Name: "S-BIND", Params: ps,
-		Funds: []Funding{{O1, 100}, {O2, 100}, {C1, 60}}, Extra: allAccounts,
+		Funds: []Funding{{O1, 100}, {O2, 100}, {C1, 60}, {P1, 50}, {P2, 50}}, Extra: allAccounts,
 		Setup:     []Action{actDefine("a", "AU")},
 		Templates: tmpls,
-		Alpha:     lifeAlpha(AlphaOpts{RespKinds: respKinds, BindOps: ops}),
+		Alpha:     lifeAlpha(AlphaOpts{RespKinds: respKinds, BindOps: ops, SetW: []string{"O1:W1"}}),
 		Depth:     depth, MaxBlocks: blocks, MaxMsgs: msgs,
 	}
 }
@@ -251,6 +251,7 @@ var (
 	tModOne  = Template{Name: "modone", Consumer: "C1", Service: "a", Providers: []string{"P1", "P2"}, Cap: 5, Timeout: 1, Module: ModOther, Threshold: 2}
 	tModPoor = Template{Name: "modpoor", Consumer: "C2", Service: "a", Providers: []string{"P1", "P2"}, Cap: 5, Timeout: 1, Repeated: true, Freq: 1, Total: 2, Module: ModOther, Threshold: 1}
 	tModCap  = Template{Name: "modcap", Consumer: "C1", Service: "a", Providers: []string{"P1", "P2"}, Cap: 1, Timeout: 1, Repeated: true, Freq: 1, Total: 2, Module: ModOther, Threshold: 2}
+	tPoorOne = Template{Name: "poorone", Consumer: "C2", Service: "a", Providers: []string{"P1", "P2"}, Cap: 5, Timeout: 1}
 	tRep1    = Template{Name: "rep1", Consumer: "C1", Service: "a", Providers: []string{"P2"}, Cap: 5, Timeout: 1, Repeated: true, Freq: 1, Total: 1}
 	tF3      = Template{Name: "f3", Consumer: "C1", Service: "a", Providers: []string{"P2"}, Cap: 5, Timeout: 1, Repeated: true, Freq: 3, Total: -1}
 	tHuge    = Template{Name: "huge", Consumer: "C1", Service: "a", Providers: []string{"P2"}, Cap: 5, Timeout: 1, Repeated: true, Freq: 1 << 63, Total: -1}
@@ -283,6 +284,9 @@ func bindOpsAuth() []Action {
 	}
 	for _, s := range []string{"O1", "O2", "XX"} {
 		ops = append(ops, actUpdate("a", "P1", s, 10, "", 0), actDisable("a", "P1", s), actEnable("a", "P1", s, 0), actRefund("a", "P1", s))
+		if s == "O1" {
+			ops = append(ops, actEnable("a", "P1", s, 30))
+		}
 	}
 	return ops
 }
